@@ -167,7 +167,7 @@ theorem spec_execOne_sp (S : Spool) (hS : SpoolShape S) (T NSD : Prop) (cs : Lis
         | none => exact rfl
         | some fd =>
           dsimp only
-          refine Fresh.bind (fresh_execP _ fd) (fun rc _ => ?_)
+          refine Fresh.bind (fresh_execP _ _ fd) (fun rc _ => ?_)
           cases fd with
           | none => exact rfl
           | some h => exact Fresh.call rfl (subj_some rfl (hfdr h rfl)) (fun _ _ => rfl)
@@ -186,7 +186,7 @@ theorem spec_execOne_sp (S : Spool) (hS : SpoolShape S) (T NSD : Prop) (cs : Lis
           | none => exact hg1
           | some fd =>
             dsimp only
-            refine wp_bind_mono (wp_true (wp_harmlessAt (harmless_execP fd) hg1)) ?_
+            refine wp_bind_mono (wp_true (wp_harmlessAt (harmless_execP _ fd) hg1)) ?_
             intro rc w2 hg2
             cases fd with
             | none => exact hg2
